@@ -299,6 +299,17 @@ func c19Worker(e *Env) *res.Result {
 					t.Fatalf("%s", fail)
 				}
 			},
+			"usergofile": func(t *rapid.T) {
+				// a hand-written Go file of the same package that imports third-party packages
+				// under the names of standard-library packages the generated code uses: what
+				// goag writes must not depend on it
+				name := rapid.SampledFrom([]string{"server.go", "logging.go", "zz_user.go"}).Draw(t, "usergofile")
+				content := []byte("package gen\n\nimport (\n\tlog \"github.com/sirupsen/logrus\"\n\tjson \"github.com/goccy/go-json\"\n\tstrings \"example.com/x/strings\"\n)\n\n" +
+					"func userHelper(v any) {\n\tlog.Println(v)\n\tbs, _ := json.Marshal(v)\n\t_ = json.Unmarshal(bs, &v)\n\t_ = json.NewDecoder(nil)\n\t_ = json.NewEncoder(nil)\n\t_ = json.RawMessage(nil)\n\t_ = strings.HasPrefix(\"a\", \"b\")\n\t_ = strings.TrimPrefix(\"a\", \"b\")\n\t_ = strings.Index(\"a\", \"b\")\n}\n")
+				trace = append(trace, "write user go file "+name)
+				os.WriteFile(filepath.Join(out, name), content, 0o644)
+				users[name] = content
+			},
 			"userfile": func(t *rapid.T) {
 				name := rapid.SampledFrom(userNames).Draw(t, "userfile")
 				content := []byte(rapid.StringN(0, 40, 80).Draw(t, "content"))
